@@ -154,7 +154,21 @@ func c12Decision(c *ctx) {
 			allGood = allGood && it.Good
 		}
 		if strings.Join(texts, ",") == "" {
-			return // 'allow=' without a value configures no rule at all (not a rule that cannot be parsed)
+			// an allow list without a single block admits nobody; 'deny=' without a value denies nothing
+			if cs.Kind != "allow" || len(cs.Other) > 0 || cs.Extra != "" {
+				return
+			}
+			t, err := newTable("route add svc acl.test/ http://10.0.0.9:80/ opts \"allow=\"")
+			if err != nil {
+				return
+			}
+			req := httptest.NewRequest("GET", "http://acl.test/", nil)
+			req.RemoteAddr = net.JoinHostPort(strings.Split(cs.Remote, "%")[0], "4242")
+			c.R.Nontrivial("empty-allow|" + cs.Remote)
+			if !t["acl.test"][0].Targets[0].AccessDeniedHTTP(req) {
+				c.R.Violate("c12:http:admitted-but-must-refuse:allow:empty-list", fmt.Sprintf("opts \"allow=\": an allow list without any block admits only addresses inside its (no) blocks, yet peer %s is admitted", cs.Remote), in)
+			}
+			return
 		}
 		// other options next to the rule, well-formed or not, must not make the rule vanish
 		extra := ""
@@ -253,6 +267,9 @@ func c12Decision(c *ctx) {
 		tcpRef := c12In(cs.Items, peer)
 		if cs.Kind == "allow" {
 			tcpRef = !tcpRef
+		}
+		if strings.HasPrefix(cs.Extra, "auth=") {
+			tcpRef = true // the route asks for credentials, which a TCP connection cannot present
 		}
 		var gotT bool
 		if p := safely(func() { gotT = tg.AccessDeniedTCP(fakeConn{remote: ta}) }); p != "" {
